@@ -11,7 +11,7 @@ import types
 import z3
 
 from . import extract, seqops
-from .contract import Const, Elem, Facade, FixedList, Link, OpaqueField, Loop, MapOf, Obj, OneOf, Optional, Region, Root, Same, SeqOf, Spec, SymDict, _Scalar
+from .contract import Const, Elem, Facade, FixedList, Link, OpaqueField, RegionList, Loop, MapOf, Obj, OneOf, Optional, Region, Root, Same, SeqOf, Spec, SymDict, _Scalar
 from .core import Explorer, Infeasible, Path, PathEnd, PyRaise
 from .interp import Interp, OldNS
 from .interp_call import Frame
@@ -91,6 +91,10 @@ def make_symbolic(I: Interp, spec, hint, root=None, env=None):
         for f, fs in spec.fields.items():
             if isinstance(fs, _Scalar):
                 fields[f] = (fs.kind, z3.Array(f"{name}.{f}", z3.IntSort(), sort_of(fs.kind)))
+            elif isinstance(fs, SeqOf) and fs.elem == "int" and fs.kind in ("str", "bytes"):
+                # a text / bytes field: one array of characters and one length per object
+                fields[f] = ("seq:" + fs.kind, (z3.Array(f"{name}.{f}.a", z3.IntSort(), z3.ArraySort(z3.IntSort(), z3.IntSort())),
+                                                 z3.Array(f"{name}.{f}.n", z3.IntSort(), z3.IntSort())))
             elif isinstance(fs, Link):
                 fields[f] = ("link", z3.Array(f"{name}.{f}", z3.IntSort(), z3.IntSort()))
             elif isinstance(fs, Facade):
@@ -101,6 +105,13 @@ def make_symbolic(I: Interp, spec, hint, root=None, env=None):
                 raise Unsupported("Region fields must be scalars, Link(), Facade(cls) or OpaqueField()")
         path.ex.inputs[name + ".n"] = {"kind": "int", "term": n}
         path.ex.inputs[name] = {"kind": "region", "n": n, "fields": {f: v for f, v in fields.items() if v[0] not in ("facade", "opaque")}}
+        for f, (kind, arr) in fields.items():
+            if kind.startswith("seq:"):
+                kq = z3.Int("k!len")
+                hi = 255 if kind == "seq:bytes" else 0x10FFFF
+                iq = z3.Int("i!chr")
+                path.assume(z3.ForAll([kq], z3.Select(arr[1], kq) >= 0))
+                path.assume(z3.ForAll([kq, iq], z3.And(z3.Select(z3.Select(arr[0], kq), iq) >= 0, z3.Select(z3.Select(arr[0], kq), iq) <= hi)))
         ref = path.alloc(MapCell("int", "ref", dom, None, spec.cls, fields, n=n, rname=spec.name))
         from .values import reach_definition
         for f, (kind, arr) in fields.items():
@@ -108,6 +119,9 @@ def make_symbolic(I: Interp, spec, hint, root=None, env=None):
                 path.assume(reach_definition(spec.name, f, arr))
         regions[id(spec)] = ref
         return ref
+    if isinstance(spec, RegionList):
+        from .values import RegionListCell
+        return path.alloc(RegionListCell(make_symbolic(I, spec.region, hint, root, env)))
     if isinstance(spec, Elem):
         from .values import MapElem
         rref = make_symbolic(I, spec.region, hint, root, env)
@@ -230,12 +244,17 @@ def make_concrete(spec, hint, model):
                     object.__setattr__(v, fs.back, o)
                 elif isinstance(fs, OpaqueField):
                     v = f"{spec.name}#{k}" if fs.pytype is str else fs.pytype()
+                elif isinstance(fs, SeqOf):
+                    items = vals.get(f, [])
+                    v = "".join(chr(max(0, min(i, 0x10FFFF))) for i in items) if fs.kind == "str" else bytes(i & 0xFF for i in items)
                 else:
                     v = vals.get(f, 0 if fs.kind == "int" else False)
                 object.__setattr__(o, f, v)
             object.__setattr__(o, "g_region", objs)     # native reading of region_of(): the list of all objects of the region
         cache[spec.name] = objs
         return objs
+    if isinstance(spec, RegionList):
+        return make_concrete(spec.region, hint, model)
     if isinstance(spec, Elem):
         objs = make_concrete(spec.region, hint, model)
         if spec.optional and model.get(f"in:{hint}.is_none"):
@@ -385,6 +404,7 @@ def _run_unit(ccls, case_name, case, res, goal_rlimit):
         I = Interp(path, callee_contracts=subs, codec_tables=codec_tables() if callable(codec_tables) else codec_tables)
         I.loop_specs = {k: v for k, v in loops.items() if isinstance(k, str)}
         I.case = case
+        I.allow_text_conversions = bool(getattr(ccls, "text_conversions_abstracted", False))
         I.rely = list(getattr(ccls, 'rely', []) or [])
         I.top_frame = None
         I.unit_label = label
@@ -442,6 +462,17 @@ def _run_unit(ccls, case_name, case, res, goal_rlimit):
         res.dropped = sorted(set(res.dropped) | I.dropped)
         if outcome == "raise":
             declared = [k for k in raise_conds if isinstance(k, type) and issubclass(value.cls, k)]
+            may = tuple(getattr(ccls, "may_raise", ()) or ())
+            if not declared and may and issubclass(value.cls, may):
+                # the contract leaves open WHEN these exceptions occur (e.g. whatever a call-out raises); only what holds
+                # at a normal return and the when_raised clauses are obligations
+                for name, f in contract_functions(ccls, "when_raised"):
+                    v = I.spec_call(f, bind_by_name(f, dict(ns, exc=value)))
+                    cell = path.cell(v) if isinstance(v, Ref) else None
+                    for cname, c in (cell.d.items() if isinstance(cell, DictCell) else [(name, v)]):
+                        t = I.truthy(c)
+                        path.oblige(f"{label}/when-raised.{value.cls.__name__}.{cname}", z3.BoolVal(t) if isinstance(t, bool) else t, assume_after=False)
+                return
             if not declared:
                 path.oblige(f"{label}/no-unexpected-exception.{value.cls.__name__}", z3.BoolVal(False), assume_after=False)
             else:
@@ -501,6 +532,8 @@ def _run_unit(ccls, case_name, case, res, goal_rlimit):
                     ob["replay"] = replay(ccls, case, ob["model"] or {})
             except Exception:
                 ob["replay"] = {"status": "replay-error", "detail": traceback.format_exc()}
+            if isinstance(ob.get("model"), dict):
+                ob["model"].pop("__regions__", None)     # the objects built for the replay are not part of the counter-model
 
 
 def _conjuncts(t):
@@ -581,7 +614,10 @@ def replay(ccls, case, model):
     failed = []
     if outcome == "raise":
         declared = [k for k in raise_conds if isinstance(value, k)]
-        if not declared:
+        may = tuple(getattr(ccls, "may_raise", ()) or ())
+        if not declared and may and isinstance(value, may):
+            pass
+        elif not declared:
             failed.append(f"unexpected exception {type(value).__name__}: {value}")
         elif not raise_conds[declared[0]]:
             failed.append(f"raised {type(value).__name__} although its raising condition is false: {value}")
@@ -637,4 +673,7 @@ def _show(v, depth=0):
     if hasattr(v, "__dict__") and depth < 3:
         return {"class": type(v).__name__, "fields": {k: _show(x, depth + 1) for k, x in list(vars(v).items())[:16]
                                                         if not k.endswith("logger")}}
-    return repr(v)[:200]
+    try:
+        return repr(v)[:200]
+    except Exception:       # a __repr__ that needs fields the contract's input shape does not have
+        return f"<{type(v).__name__} object>"
